@@ -9,6 +9,7 @@ CONSTANTS
   MaxLife = 4
   MaxDims = 0
   MaxSteps = 7
+  MaxGen = 0
   EmitActs = {"Open", "Close", "Crash"}
   EmitRes = "any"
   EmitWhen = "always"
